@@ -305,6 +305,31 @@ def _func_facade(name, orig):
     return f
 
 
+def _swap_default_engines(old, new):
+    """`engine=torch.randn` default arguments were bound at import time: point them at `new`"""
+    import inspect
+
+    n = 0
+    try:
+        import pfhedge.instruments as PI
+        import pfhedge.stochastic as PS
+    except Exception:  # noqa: BLE001
+        return 0
+    objs = [getattr(PS, k) for k in dir(PS)] + [getattr(getattr(PI, k), "__init__", None) for k in dir(PI)]
+    for f in objs:
+        if not inspect.isfunction(f):
+            continue
+        if f.__defaults__ and any(d is old for d in f.__defaults__):
+            f.__defaults__ = tuple(new if d is old else d for d in f.__defaults__)
+            n += 1
+        if f.__kwdefaults__:
+            for k, d in list(f.__kwdefaults__.items()):
+                if d is old:
+                    f.__kwdefaults__[k] = new
+                    n += 1
+    return n
+
+
 @contextlib.contextmanager
 def patched():
     """Install the facades (re-entrant: nested uses are no-ops)."""
@@ -353,11 +378,16 @@ def patched():
             if n in st.HANDLERS and hasattr(torch, n):
                 _ORIG["fn:" + n] = getattr(torch, n)
                 setattr(torch, n, _func_facade(n, _ORIG["fn:" + n]))
+        swapped = _swap_default_engines(_ORIG["randn"], f_randn)
         _ORIG["fn:F.relu"] = torch.nn.functional.relu
         torch.nn.functional.relu = _func_facade("relu", _ORIG["fn:F.relu"])
         yield
     finally:
         _DEPTH[0] = 0
+        try:
+            _swap_default_engines(f_randn, _ORIG["randn"])
+        except Exception:  # noqa: BLE001
+            pass
         for n in names:
             setattr(torch, n, _ORIG[n])
         for n in _FUNC_NAMES:
